@@ -9,7 +9,7 @@ import monitors
 
 # ------------------------------------------------------------------ rewards
 REWARD_MODES = ["dyadic", "dyadic", "negative", "zero", "const", "few", "alt", "large", "objective", "objective", "zeromax",
-                "offset", "near"]
+                "offset", "near", "corner"]
 
 
 def make_reward_fn(rnd, mode, box):
@@ -20,6 +20,7 @@ def make_reward_fn(rnd, mode, box):
     few = rnd.choice([[0.0, 1.0], [-1.0, -0.5], [0.25, 0.5, 0.75], [0.5]])
     offset = rnd.choice([1e10, -1e12, 1e8, -3e9])
     near = rnd.choice([1.0, -2.0, 0.75, 1e5])
+    corner = [rnd.choice([lo, hi, hi]) for lo, hi in box]      # an objective that increases towards a corner of the box
 
     def fn(t, pt):
         if mode == "dyadic":
@@ -38,6 +39,8 @@ def make_reward_fn(rnd, mode, box):
             return (1 if t % 2 else -1) * rnd.randint(0, 64) / 64.0
         if mode == "large":
             return rnd.choice([1e6, -1e6, 12345.5, -3e5]) * rnd.randint(1, 8)
+        if mode == "corner":         # greedy searches dive along the boundary of the box, as deep as the budget allows
+            return -sum(abs((p - x) / s_) for p, x, s_ in zip(pt, corner, scale)) / d
         if mode == "near":           # distinct values that agree to 10..14 digits (and exact ties)
             return near * (1.0 + rnd.choice([0, 0, 1, -1, 2, -3, 5]) * 2.0 ** -rnd.choice([36, 40, 44]))
         # objective + dyadic noise (objective itself is not dyadic)
@@ -537,7 +540,8 @@ class ZoomingAd(Adapter):
         return {"nu": 1.0, "rho": 0.9}
 
     def gen_params(self, rnd, T):
-        return {"nu": rnd.choice([1.0, 0.5, 2.0, 4.0, 8.0]), "rho": rnd.choice([0.9, 0.5, 0.75, 0.95])}
+        # a large nu makes the refinement test pass at once: the tree gets one level deeper every few rounds
+        return {"nu": rnd.choice([1.0, 0.5, 2.0, 4.0, 8.0, 1e3, 1e6]), "rho": rnd.choice([0.9, 0.5, 0.75, 0.95, 0.99])}
 
     def fix_T(self, p, T):
         return T * 3 if T >= 100 else T            # some long runs: refinement three and more levels deep
@@ -798,8 +802,11 @@ def gen_algo_case(seed, idx, algo=None, force=None, monitors_on=True, T=None, ho
     else:
         # a query between two rounds is "get_last_point after the loop" of the rounds played so far (C01); for the
         # algorithms outside C15's list it may change the rest of the run, which the model follows (A.last is an op)
-        QRY = ("T_HOO", "HCT", "VHCT", "Zooming", "POO", "SOO", "DOO", "StoSOO", "SequOOL", "VROOM")
+        QRY = ("T_HOO", "HCT", "VHCT", "Zooming", "POO", "SOO", "DOO", "StoSOO", "SequOOL", "VROOM", "GPO", "PCT", "VPCT")
         query_rounds = set(qrnd.sample(range(T), min(n_queries, T))) if ad.name in QRY else set()
+        if ad.name in ("GPO", "PCT", "VPCT") and qrnd.random() < 0.5:
+            # queries while the last learners are being validated (the scores the final choice is made from are still moving)
+            query_rounds |= set(qrnd.sample(range(max(0, T - max(T // 4, 1)), T), min(3, max(T // 4, 1))))
     labels = force.get("labels")
     MID = ("VROOM", "SOO", "DOO", "SequOOL", "StoSOO", "T_HOO", "HCT", "VHCT", "POO")
     if force.get("mid_queries") is not None:
@@ -839,7 +846,7 @@ def gen_algo_case(seed, idx, algo=None, force=None, monitors_on=True, T=None, ho
         case.op("A.dump", safe_dump(ad, a, delta))
         if monitors_on:
             for p_ in parts():
-                for sig, det in monitors.c03_tree(p_):
+                for sig, det in monitors.c03_tree(p_, arity=meta["arity"]):
                     case.fail("C03", sig, det, step="init", algo=ad.name, via="algorithm", kind=kind)
         if "after_init" in hooks:
             hooks["after_init"](ctx)
@@ -919,7 +926,7 @@ def gen_algo_case(seed, idx, algo=None, force=None, monitors_on=True, T=None, ho
             case.op("A.dump", safe_dump(ad, a, delta))
             if monitors_on:
                 for p_ in parts():
-                    for sig, det in monitors.c03_tree(p_):
+                    for sig, det in monitors.c03_tree(p_, arity=meta["arity"]):
                         case.fail("C03", sig, det, step=i, algo=ad.name, via="algorithm", kind=kind); break
                 # every expansion the algorithm issued must be a legal op of the theorem `ops_WF`:
                 # target a leaf, newlayer = (the leaf is at the current deepest level)
